@@ -631,6 +631,18 @@ func (c *CFG) DominatingCondsAt(pt Point) []CondAt {
 // condition is exactly the expression it abbreviates.
 func (c *CFG) condWithInit(is *ast.IfStmt, t *Term) *Term {
 	as, ok := is.Init.(*ast.AssignStmt)
+	if ok && as.Tok == token.DEFINE && len(as.Lhs) == 2 && len(as.Rhs) == 1 {
+		// if v, ok := x.(T); ok  — the same test as the arm `case T` of a type switch on x
+		if ta, isTA := ast.Unparen(as.Rhs[0]).(*ast.TypeAssertExpr); isTA && ta.Type != nil {
+			if okID, isID := as.Lhs[1].(*ast.Ident); isID {
+				if okV, _ := c.p.Info.Defs[okID].(*types.Var); okV != nil {
+					ti := c.p.typeIsTerm(ta.X, ta.Type)
+					return normTerm(t.Subst(map[types.Object]*Term{okV: ti}))
+				}
+			}
+		}
+		return t
+	}
 	if !ok || as.Tok != token.DEFINE || len(as.Lhs) != 1 || len(as.Rhs) != 1 {
 		return t
 	}
